@@ -24,7 +24,7 @@ NOT decided: round trip through MessageView (value-level).
 
 ASSUMPTIONS = ['slice::sort_by_key is stable', 'ToRoughTLV impls of the leaf types write exactly rough_tlv_len() bytes']
 
-FLOORS = {'R11.1': 9, 'R11.2': 5, 'R11.3': 10, 'R11.4': 5, 'R11.5': 6}
+FLOORS = {'R11.1': 12, 'R11.2': 5, 'R11.3': 10, 'R11.4': 5, 'R11.5': 6}
 
 from engine.woodlint.linear import int_range  # noqa: E402
 
@@ -66,6 +66,10 @@ def r11_1(cx):
         'ValueTooLarge': (lambda r: r[0] == 'Gt' and enc_len(r[1]) and _is_i32max(r[2]), 'encoded_len > i32::MAX'),
         'TotalTooLarge': (lambda r: r[0] == 'Gt' and _is_i32max(r[2]) and any(c.op.endswith('saturating_add') for c in r[1].calls()), 'total > i32::MAX'),
     }
+    def narrowed(e):
+        # the quantity tested against the limit went through a type that cannot hold every usize: `total as u32 > MAX`
+        # accepts totals of 2^32 and more whose low bits are small
+        return [n.info.get('ty') for n in e.walk() if n.kind == 'cast' and n.info.get('ck') == 'IntToInt' and (int_range(n.info.get('ty')) or (0, 2**64))[1] < 2**63 - 1]
     for v, (pred, what) in preds.items():
         cx.count_sites()
         if len(errs.get(v, [])) != 1:
@@ -74,6 +78,9 @@ def r11_1(cx):
         pos = errs[v][0]
         rels = [as_relation((e, val)) for e, val, ed in fn.facts_at(pos.bb)]
         rels = [r for r in rels if r]
+        nar = [t for r in rels if pred(r) for t in narrowed(r[1])]
+        cx.check(not nar, 'limit-unnarrowed:' + v, fn, fn.loc(pos.bb), 'the quantity compared with the limit is the full-width one',
+                 fail_detail='the value compared with i32::MAX was first cast to %s: sizes of 2^32 and more wrap around and pass the limit' % nar)
         cx.check(any(pred(r) for r in rels), 'limit:' + v, fn, fn.loc(pos.bb), '%s => Err(%s)' % (what, v),
                  fail_detail='Err(%s) is built under %s, expected %s' % (v, [(r[0], show(r[1])[:50], show(r[2])[:20]) for r in rels], what))
     oks = [pos for pos, st in fn.statements() if st['k'] == 'assign' and st['pl']['l'] == 0 and st['rv']['k'] == 'agg' and st['rv']['variant'] == 'Ok']
